@@ -142,25 +142,36 @@ def count_form(t, dst, N, sizes, power=None):
     from .hilbert_curve import ev_int, rp2
     from ..common import AnalysisBroken as AB
 
-    def ev(x, env):
+    def ev(x, env, memo=None):
+        if memo is None:
+            memo = env.setdefault('__memo__', {})
+        k = id(x)
+        if k in memo:
+            return memo[k][1]
+        r = ev1(x, env)
+        memo[k] = (x, r)
+        return r
+
+    def lit(v):
+        return ('ci', int(v), 64)
+
+    def ev1(x, env):
         if x[0] == 'call' and (x[1] or "").startswith(RP2):
             return rp2(ev(x[3], env))
         if x[0] == 'call' and (x[1] or "").startswith(IPOW):
             return pow(ev(x[3], env), ev(x[4], env), 1 << 64)
         if x in env or x[0] in ('ci',):
             return ev_int(x, env)
-        if x[0] in ('op', 'cmp'):
-            sub = {y: ('ci', ev(y, env) if not isinstance(ev(y, env), bool) else int(ev(y, env)), 64) for y in (x[3], x[4]) if x[0] == 'op'} if x[0] == 'op' else {}
-            if x[0] == 'op':
-                return ev_int((x[0], x[1], x[2], sub[x[3]], sub[x[4]]), env)
-            a_, b_ = ev(x[2], env), ev(x[3], env)
-            return ev_int(('cmp', x[1], ('ci', a_, 64), ('ci', b_, 64)), env)
+        if x[0] == 'op':
+            return ev_int((x[0], x[1], x[2], lit(ev(x[3], env)), lit(ev(x[4], env))), env)
+        if x[0] == 'cmp':
+            return ev_int(('cmp', x[1], lit(ev(x[2], env)), lit(ev(x[3], env))), env)
         if x[0] == 'sel':
             return ev(x[2], env) if ev(x[1], env) else ev(x[3], env)
         if x[0] == 'cast':
-            return ev_int((x[0], x[1], x[2], ('ci', ev(x[3], env), 64)), env)
+            return ev_int((x[0], x[1], x[2], lit(ev(x[3], env))), env)
         if x[0] == 'fn':
-            return ev_int(x[:3] + tuple(('ci', ev(y, env), 64) for y in x[3:]), env)
+            return ev_int(x[:3] + tuple(lit(ev(y, env)) for y in x[3:]), env)
         if x[0] in ('not', 'and', 'or'):
             vs = [ev(y, env) for y in x[1:]]
             return (not vs[0]) if x[0] == 'not' else (vs[0] and vs[1]) if x[0] == 'and' else (vs[0] or vs[1])
@@ -170,8 +181,6 @@ def count_form(t, dst, N, sizes, power=None):
         raise AB("element count uses an operation this evaluation does not know: %s" % ir.show(x)[:80])
     import itertools
     from .hilbert_curve import step_expr
-    if not step_expr(t, set(sizes)):
-        return None, "element count %s is neither ipow(round_pow2(max extent), %d) nor a step expression of the extents that evaluation at power-of-two boundaries could decide" % (ir.show(t, names)[:80], N)
     reps = []
     for k in range(0, 20):
         for m_ in sorted({max(1, (1 << k) + d_) for d_ in (-2, -1, 0, 1, 2)}):
@@ -189,6 +198,9 @@ def count_form(t, dst, N, sizes, power=None):
                 return False, "value is %d for extents %s, expected %d = (largest extent rounded up to a power of two)^%d; the expression is %s" % (v, tup, want, N if power is None else power, ir.show(t, names)[:100])
     except AB as e:
         return None, "element count %s is not of the form ipow(round_pow2(max extent), %d) and could not be evaluated (%s)" % (ir.show(t, names)[:80], N, e)
+    # no witness against it: that is a proof only for a step expression (constant between the points evaluated)
+    if not step_expr(t, set(sizes)):
+        return None, "element count %s agrees with (round_pow2(max extent))^%d at every extent tuple tried but is not a step expression of the extents, so agreement in between is not decided" % (ir.show(t, names)[:80], N)
     return True, None
 
 
